@@ -1,8 +1,13 @@
 #!/bin/bash
-# usage: run_seeded.sh <seeded dir name> <check id> [extra check args]   -- applies the seeded patch to /repo, runs the check, undoes it
+# usage: run_seeded.sh <seeded dir name> <check id> [extra check args]
+# applies the seeded patch to /repo, starts the check (which snapshots /repo into its scratch dir first), undoes the patch, waits.
 S=$1; C=$2; shift 2
 cd /verif
-git -C /repo apply /verif/seeded/$S/patch.diff || { echo "PATCH DOES NOT APPLY"; exit 9; }
-./check $C "$@" > /tmp/seeded-$S-$C.out 2>&1; RC=$?
+git -C /repo apply /verif/seeded/$S/patch.diff || { echo "seeded=$S check=$C PATCH DOES NOT APPLY"; exit 9; }
+./check $C "$@" > /tmp/seeded-$S-$C.out 2>&1 &
+PID=$!
+sleep 10
 git -C /repo checkout -- .
-echo "seeded=$S check=$C rc=$RC"; grep "^VIOLATION\|^KNOWN\|^INCONCLUSIVE" /tmp/seeded-$S-$C.out | head -5
+wait $PID; RC=$?
+echo "seeded=$S check=$C rc=$RC $(grep -c '^VIOLATION' /tmp/seeded-$S-$C.out) violations; first: $(grep '^VIOLATION' /tmp/seeded-$S-$C.out | head -2 | tr '\n' ' ')"
+grep "^INCONCLUSIVE" /tmp/seeded-$S-$C.out | head -2
